@@ -43,6 +43,8 @@ def main():
             a.pid, a.tier, d, n, len(run.functions), __import__("time").time() - run.t0))
         return rc
     except CheckerError as e:
+        if os.environ.get("PVC_TRACE"):
+            traceback.print_exc()
         print("CHECKER-ERROR %s: %s" % (a.pid, e))
         return 3
     except Exception:
